@@ -5266,15 +5266,17 @@ func (a *Agent) TaskDispatch(RequestID uint32, CommandID uint32, Parser *parser.
 										// if the agent doesn't exist then we assume that it's a register request from a new agent
 
 										DemonInfo = ParseDemonRegisterRequest(AgentHdr.AgentID, AgentHdr.Data, "")
-										DemonInfo.Pivots.Parent = a
+										if DemonInfo != nil {
+											DemonInfo.Pivots.Parent = a
 
-										a.Pivots.Links = append(a.Pivots.Links, DemonInfo)
-										teamserver.LinkAdd(a, DemonInfo)
+											a.Pivots.Links = append(a.Pivots.Links, DemonInfo)
+											teamserver.LinkAdd(a, DemonInfo)
 
-										DemonInfo.Info.MagicValue = AgentHdr.MagicValue
+											DemonInfo.Info.MagicValue = AgentHdr.MagicValue
 
-										teamserver.AgentAdd(DemonInfo)
-										teamserver.AgentSendNotify(DemonInfo)
+											teamserver.AgentAdd(DemonInfo)
+											teamserver.AgentSendNotify(DemonInfo)
+										}
 									}
 
 									if DemonInfo != nil {
